@@ -175,8 +175,8 @@ theorem body_of_cut (frame enc : List UInt8) (cut : Nat) (h : frame.length ≤ (
 
 /-- **An incomplete transfer is an error**, for both values of the compress flag, wherever
 the stream between the nodes ends — inside the response frame, before the first backup byte,
-or anywhere inside the compressed backup — and whether the network or the serving node's
-backup caused it. -/
+or anywhere inside the compressed backup (a transfer the network cut; a backup the serving
+node could not produce is `serving_failure_is_error`). -/
 theorem incomplete_transfer_is_error (G : GzipLaw) (compress respErr : Bool)
     (frame payload : List UInt8) (cut : Nat)
     (hcut : cut < (frame ++ G.enc payload).length) :
@@ -325,9 +325,85 @@ theorem http_success_is_clean (abort : Bool) (k errLen : Nat) :
 
 /-! ### non-vacuity -/
 
-/-- a toy codec satisfying `GzipLaw`: length byte(s) in unary, then the data, then a
-terminator — enough to show the law is satisfiable and the theorems are not vacuous -/
+/-! ### `GzipLaw` is inhabited
+
+A toy codec: the length in unary (`1` bytes), a `0`, then the data. An abandoned writer has
+emitted nothing. The relay theorems above are therefore not vacuous. -/
+
 def toyEnc (x : List UInt8) : List UInt8 := x.map (fun _ => (1 : UInt8)) ++ [0] ++ x
+
+/-- parse: count the `1`s, expect a `0`, then exactly that many bytes -/
+def toyDecAux (n : Nat) : List UInt8 → Option (List UInt8)
+  | [] => none
+  | b :: rest =>
+    if b = 1 then toyDecAux (n + 1) rest
+    else if b = 0 then (if rest.length = n then some rest else none)
+    else none
+
+def toyDec (s : List UInt8) : Option (List UInt8) := toyDecAux 0 s
+
+theorem toyDecAux_whole (l x : List UInt8) (n : Nat) :
+    toyDecAux n (l.map (fun _ => (1 : UInt8)) ++ [0] ++ x) = if x.length = n + l.length then some x else none := by
+  induction l generalizing n with
+  | nil => simp [toyDecAux]
+  | cons a l ih =>
+    simp only [List.map_cons, List.cons_append, toyDecAux, if_true, List.length_cons]
+    rw [ih (n + 1)]
+    have : n + 1 + l.length = n + (l.length + 1) := by omega
+    rw [this]
+
+theorem toyDecAux_cut (l x : List UInt8) (n p : Nat)
+    (hp : p < l.length + 1 + x.length) (hx : x.length ≤ n + l.length) :
+    toyDecAux n ((l.map (fun _ => (1 : UInt8)) ++ [0] ++ x).take p) = none := by
+  induction l generalizing n p with
+  | nil =>
+    cases p with
+    | zero => simp [toyDecAux]
+    | succ p =>
+      simp only [List.map_nil, List.nil_append, List.cons_append, List.take_succ_cons, toyDecAux]
+      have h10 : ¬ ((0 : UInt8) = 1) := by decide
+      rw [if_neg h10, if_pos trivial]
+      have : ¬ (x.take p).length = n := by
+        simp only [List.length_take, List.length_nil] at *
+        omega
+      rw [if_neg this]
+  | cons a l ih =>
+    cases p with
+    | zero => simp [toyDecAux]
+    | succ p =>
+      simp only [List.map_cons, List.cons_append, List.take_succ_cons, toyDecAux, if_true]
+      exact ih (n + 1) p (by simp only [List.length_cons] at hp; omega) (by simp only [List.length_cons] at hx; omega)
+
+def toyGzip : GzipLaw where
+  enc := toyEnc
+  dec := toyDec
+  round := by
+    intro x
+    unfold toyDec toyEnc
+    rw [toyDecAux_whole x x 0]
+    simp
+  cut := by
+    intro x p hp
+    unfold toyDec toyEnc at *
+    apply toyDecAux_cut x x 0 p
+    · simp only [List.length_append, List.length_map, List.length_cons, List.length_nil] at hp; omega
+    · omega
+  open_ := fun _ => []
+  open_cut := by
+    intro x p
+    simp [toyDec, toyDecAux]
+
+/-- the relay theorems applied to the toy codec -/
+example : serving_failure_full toyGzip false := serving_failure_is_error toyGzip
+
+example (compress : Bool) (frame payload : List UInt8) (cut : Nat)
+    (h : cut < (frame ++ toyGzip.enc payload).length) :
+    clientBackup toyGzip true compress frame false payload cut = .error :=
+  incomplete_transfer_is_error toyGzip compress false frame payload cut h
+
+example : clientBackup toyGzip true false [9] false [7, 8] 6 = .ok [7, 8] ∧
+    clientBackup toyGzip true false [9] false [7, 8] 5 = .error ∧
+    relayed toyGzip false true false [9] [7, 8] false 6 = .error := by decide
 
 example : (runDb {} [.write, .write, .snapBegin, .checkpoint 0, .snapEnd, .write, .backupBegin,
     .copyChunk, .write, .snapBegin, .checkpoint 5, .copyChunk, .backupEnd, .snapBegin, .checkpoint 5, .snapEnd]).done = [(1, [1, 1])] ∧
